@@ -307,6 +307,28 @@ def _isalnum(interp, args, node):
     return Sym('call', ('isalnum', c))
 
 
+def _ctype(name, pred):
+    def f(interp, args, node):
+        c = args[0]
+        if isinstance(c, int):
+            return int(0 <= c < 128 and pred(chr(c)))     # "C" locale
+        return Sym('call', (name, c))
+    return f
+
+
+CTYPE_LEAFS = {
+    'isxdigit': _ctype('isxdigit', lambda ch: ch in '0123456789abcdefABCDEF'),
+    'isdigit': _ctype('isdigit', lambda ch: ch in '0123456789'),
+    'isalpha': _ctype('isalpha', lambda ch: ch.isalpha()),
+    'isupper': _ctype('isupper', lambda ch: 'A' <= ch <= 'Z'),
+    'islower': _ctype('islower', lambda ch: 'a' <= ch <= 'z'),
+    'isspace': _ctype('isspace', lambda ch: ch in ' \t\n\v\f\r'),
+    'isprint': _ctype('isprint', lambda ch: 32 <= ord(ch) < 127),
+    'ispunct': _ctype('ispunct', lambda ch: 32 < ord(ch) < 127 and not ch.isalnum()),
+    'iscntrl': _ctype('iscntrl', lambda ch: ord(ch) < 32 or ord(ch) == 127),
+}
+
+
 def stream_leafs(get_stream):
     def rd(tag, store=True):
         def f(interp, args, node):
@@ -391,6 +413,25 @@ def _ctype_b_loc(interp, args, node):
                     v |= 0x400
                 if ch.isdigit():
                     v |= 0x800
+                # the remaining classes of the "C" locale (glibc _ISbit layout on little-endian hosts)
+                if 'A' <= ch <= 'Z':
+                    v |= 0x100
+                if 'a' <= ch <= 'z':
+                    v |= 0x200
+                if ch in '0123456789abcdefABCDEF':
+                    v |= 0x1000
+                if ch in ' \t\n\v\f\r':
+                    v |= 0x2000
+                if 32 <= c < 127:
+                    v |= 0x4000
+                if 32 < c < 127:
+                    v |= 0x8000
+                if ch in ' \t':
+                    v |= 0x1
+                if c < 32 or c == 127:
+                    v |= 0x2
+                if 32 < c < 127 and not ch.isalnum():
+                    v |= 0x4
             tab.append(v)
         _CTYPE = {'v': Ptr(tab, 128)}
     return Ptr(_CTYPE, 'v')
@@ -414,7 +455,7 @@ def base_leafs():
         'calloc': _calloc,
         'malloc': lambda i, a, n: Ptr([], 0),
         'free': pe.leaf_event('free'),
-        'strlen': _strlen, 'strcmp': _strcmp, 'isalnum': _isalnum,
+        'strlen': _strlen, 'strcmp': _strcmp, 'isalnum': _isalnum, **CTYPE_LEAFS,
         'strerror': pe.leaf_const('<strerror>'),
         'abort': pe.leaf_abort('abort'),
         'exit': pe.leaf_abort('exit'),
